@@ -1214,3 +1214,224 @@ Proof.
   intros E. inversion E; subst. unfold cursor_ok, state_ok, depth_ok. cbn [c_raw c_cur r_in r_end r_depth null_die d_depth].
   repeat split; lia.
 Qed.
+
+(* ---- EntriesTree ---- *)
+Definition tree_ok (t : tree_st) : Prop :=
+  state_ok (tr_raw t) /\ depth_ok (d_depth (tr_entry t)) (r_in (tr_raw t)) /\
+  nlen (tr_root t) <= r_end (tr_raw t) /\ depth_ok 0 (tr_root t).
+
+Lemma tree_root_total dbg e tbl t : tree_ok t ->
+  match tree_root dbg e tbl t with
+  | Ok t' => tree_ok t'
+  | Err _ => True
+  | _ => False
+  end.
+Proof.
+  intros (Hs & Hc & Hr & H0). unfold tree_root.
+  assert (Hs0 : state_ok (mkRaw (tr_root t) (r_end (tr_raw t)) 0)) by (split; cbn [r_in r_end r_depth]; assumption).
+  pose proof (read_entry_inv dbg e tbl _ Hs0) as H.
+  destruct (read_entry dbg e tbl (mkRaw (tr_root t) (r_end (tr_raw t)) 0)) as [[[ok d] r']| | |] eqn:Er;
+    cbn [bind]; try contradiction; [|exact I].
+  destruct H as (H1 & H2 & H3). cbn [r_in r_depth] in *. destruct ok; cbn [negb]; [|exact I].
+  apply read_entry_shrinks in Er. destruct Er as [_ Eend]. cbn [r_end] in Eend.
+  split; cbn [tr_raw tr_entry tr_root]; [exact H1|]. split.
+  - rewrite H2. apply (depth_ok_shorter _ (tr_root t)); [lia|exact H0].
+  - split; [rewrite Eend; exact Hr|exact H0].
+Qed.
+
+Lemma tree_fail_total dbg t x : state_ok (tr_raw t) -> depth_ok 0 (tr_root t) -> nlen (tr_root t) <= r_end (tr_raw t) ->
+  match tree_fail dbg t x with
+  | Ok (TOk _ t') | Ok (TErr _ t') => tree_ok t'
+  | _ => False
+  end.
+Proof.
+  intros [Hle Hd] H0 Hr. unfold tree_fail, next_offset, chk_sub.
+  replace (nlen (r_in (tr_raw t)) <=? r_end (tr_raw t)) with true by lia. cbn [bind].
+  assert (Hd0 : depth_ok (r_depth (tr_raw t)) []) by (apply (depth_ok_shorter _ (r_in (tr_raw t))); [cbn; lia|exact Hd]).
+  unfold tree_ok, state_ok. cbn [tr_raw tr_entry tr_root r_in r_end r_depth d_depth].
+  split; [split; [change (nlen (@nil byte)) with 0; lia|exact Hd0]|]. split; [exact Hd0|]. split; assumption.
+Qed.
+
+Lemma tree_next_loop_total dbg e tbl depth : forall fuel t, tree_ok t -> (length (r_in (tr_raw t)) < fuel)%nat ->
+  match tree_next_loop fuel dbg e tbl depth t with
+  | Ok (TOk _ t') | Ok (TErr _ t') => tree_ok t'
+  | _ => False
+  end.
+Proof.
+  induction fuel as [|fuel IH]; intros t (Hs & Hc & Hr & H0) Hf; [lia|]. cbn [tree_next_loop].
+  destruct (sibling_jump_inv dbg (tr_raw t) (tr_entry t) Hs Hc) as (r1 & Ej & Hs1 & Hl1). rewrite Ej. cbn [bind].
+  apply sibling_jump_shrinks in Ej. destruct Ej as [_ Eend1].
+  destruct (raw_is_empty r1) eqn:Em.
+  - unfold tree_ok. cbn [tr_raw tr_entry tr_root set_null d_depth]. split; [exact Hs1|]. split.
+    + apply (depth_ok_shorter _ (r_in (tr_raw t))); assumption.
+    + split; [rewrite Eend1; exact Hr|exact H0].
+  - pose proof (read_entry_inv dbg e tbl r1 Hs1) as H.
+    destruct (read_entry dbg e tbl r1) as [[[ok d] r2]|x| |] eqn:Er; try contradiction.
+    + destruct H as (H1 & H2 & H3). apply read_entry_shrinks in Er. destruct Er as [_ Eend2].
+      assert (Hok2 : tree_ok (mkTree (tr_root t) r2 d)).
+      { unfold tree_ok. cbn [tr_raw tr_entry tr_root]. split; [exact H1|]. split.
+        - rewrite H2. destruct Hs1 as [_ Hd1]. apply (depth_ok_shorter _ (r_in r1)); [lia|exact Hd1].
+        - split; [rewrite Eend2, Eend1; exact Hr|exact H0]. }
+      destruct (d_depth d =? depth)%Z; [exact Hok2|]. apply IH; [exact Hok2|cbn [tr_raw]; lia].
+    + apply tree_fail_total; cbn [tr_raw tr_root]; [exact Hs1|exact H0|rewrite Eend1; exact Hr].
+Qed.
+
+(* EntriesTree::next(depth) under its documented requirement depth <= entry.depth + 1 *)
+Lemma tree_next_total dbg e tbl depth t : tree_ok t ->
+  ((d_depth (tr_entry t) < depth)%Z -> (d_depth (tr_entry t) + 1 = depth)%Z) ->
+  match tree_next (tree_fuel t) dbg e tbl depth t with
+  | Ok (TOk _ t') | Ok (TErr _ t') => tree_ok t'
+  | _ => False
+  end.
+Proof.
+  intros Hok Hreq. unfold tree_next. destruct (d_depth (tr_entry t) <? depth)%Z eqn:Hlt.
+  - replace (d_depth (tr_entry t) + 1 =? depth)%Z with true by lia. rewrite andb_false_r.
+    destruct (negb (d_children (tr_entry t))); [exact Hok|].
+    destruct Hok as (Hs & Hc & Hr & H0).
+    destruct (raw_is_empty (tr_raw t)).
+    + unfold tree_ok. cbn [tr_raw tr_entry tr_root set_null d_depth]. tauto.
+    + pose proof (read_entry_inv dbg e tbl (tr_raw t) Hs) as H.
+      destruct (read_entry dbg e tbl (tr_raw t)) as [[[ok d] r2]|x| |] eqn:Er; try contradiction.
+      * destruct H as (H1 & H2 & H3). apply read_entry_shrinks in Er. destruct Er as [_ Eend2].
+        unfold tree_ok. cbn [tr_raw tr_entry tr_root]. split; [exact H1|]. split.
+        -- rewrite H2. destruct Hs as [_ Hd1]. apply (depth_ok_shorter _ (r_in (tr_raw t))); [lia|exact Hd1].
+        -- split; [rewrite Eend2; exact Hr|exact H0].
+      * apply tree_fail_total; assumption.
+  - apply tree_next_loop_total; [exact Hok|unfold tree_fuel; lia].
+Qed.
+
+(* ---- unit headers ---- *)
+Ltac un_step bigend n bs :=
+  let A1 := fresh "A" in let A2 := fresh "A" in
+  pose proof (read_un_not_panic n bigend bs) as [A1 A2];
+  destruct (read_un n bigend bs) as [[? ?]| | |]; cbn [bind]; try (split; congruence).
+
+Lemma read_initial_length_res bigend bs :
+  read_initial_length bigend bs <> Panic /\ read_initial_length bigend bs <> OutOfFuel.
+Proof.
+  unfold read_initial_length. un_step bigend 4%nat bs.
+  destruct (n <? 4294967280); [split; discriminate|].
+  destruct (n =? 4294967295); [|split; discriminate]. un_step bigend 8%nat l.
+Qed.
+
+Lemma read_word_res f64 bigend bs : read_word f64 bigend bs <> Panic /\ read_word f64 bigend bs <> OutOfFuel.
+Proof. unfold read_word. destruct f64; apply read_un_not_panic. Qed.
+
+Lemma read_address_size_res bs : read_address_size bs <> Panic /\ read_address_size bs <> OutOfFuel.
+Proof.
+  unfold read_address_size. destruct bs as [|b r]; cbn [read_u8 bind]; [split; discriminate|].
+  destruct ((b2n b =? 1) || (b2n b =? 2) || (b2n b =? 4) || (b2n b =? 8)); split; discriminate.
+Qed.
+
+Lemma sig_off_res bigend f64 (mk : N -> N -> utype) bs :
+  (let* (s, r1) := read_u64 bigend bs in let* (o, r2) := read_word f64 bigend r1 in Ok (mk s o, r2)) <> Panic /\
+  (let* (s, r1) := read_u64 bigend bs in let* (o, r2) := read_word f64 bigend r1 in Ok (mk s o, r2)) <> OutOfFuel.
+Proof.
+  unfold read_u64. un_step bigend 8%nat bs.
+  pose proof (read_word_res f64 bigend l) as [W1 W2].
+  destruct (read_word f64 bigend l) as [[o r2]| | |]; cbn [bind]; split; congruence.
+Qed.
+
+Lemma id_res bigend (mk : N -> utype) bs :
+  (let* (i, r1) := read_u64 bigend bs in Ok (mk i, r1)) <> Panic /\
+  (let* (i, r1) := read_u64 bigend bs in Ok (mk i, r1)) <> OutOfFuel.
+Proof. unfold read_u64. un_step bigend 8%nat bs. Qed.
+
+Lemma parse_unit_type_res bigend f64 code bs :
+  parse_unit_type bigend f64 code bs <> Panic /\ parse_unit_type bigend f64 code bs <> OutOfFuel.
+Proof.
+  unfold parse_unit_type.
+  destruct (code =? 1); [split; discriminate|].
+  destruct (code =? 2); [apply sig_off_res|].
+  destruct (code =? 3); [split; discriminate|].
+  destruct (code =? 4); [apply id_res|].
+  destruct (code =? 5); [apply id_res|].
+  destruct (code =? 6); [apply sig_off_res|split; discriminate].
+Qed.
+
+Lemma parse_unit_header_res bigend types uoff bs :
+  parse_unit_header bigend types uoff bs <> Panic /\ parse_unit_header bigend types uoff bs <> OutOfFuel.
+Proof.
+  unfold parse_unit_header.
+  pose proof (read_initial_length_res bigend bs) as [A1 A2].
+  destruct (read_initial_length bigend bs) as [[[len f64] r0]| | |]; cbn [bind]; try (split; congruence).
+  pose proof (split_n_res r0 len) as [S1 S2].
+  destruct (split_n len r0) as [[rest after]| | |]; cbn [bind]; try (split; congruence).
+  unfold read_u16. un_step bigend 2%nat rest. rename n into version. rename l into r1.
+  assert (Hmid : forall X : res (N * N * N * list byte),
+            X = (if (2 <=? version) && (version <=? 4)
+                 then let* (aoff, ra) := read_word f64 bigend r1 in
+                      let* (asz, rb) := read_address_size ra in Ok (if types then 2 else 1, asz, aoff, rb)
+                 else if version =? 5
+                      then let* (ut, ra) := read_u8 r1 in
+                           let* (asz, rb) := read_address_size ra in
+                           let* (aoff, rc) := read_word f64 bigend rb in Ok (ut, asz, aoff, rc)
+                      else Err EUnknownVersion) -> X <> Panic /\ X <> OutOfFuel).
+  { intros X ->. destruct ((2 <=? version) && (version <=? 4)).
+    - pose proof (read_word_res f64 bigend r1) as [W1 W2].
+      destruct (read_word f64 bigend r1) as [[aoff ra]| | |]; cbn [bind]; try (split; congruence).
+      pose proof (read_address_size_res ra) as [T1 T2].
+      destruct (read_address_size ra) as [[asz rb]| | |]; cbn [bind]; split; congruence.
+    - destruct (version =? 5); [|split; discriminate].
+      destruct r1 as [|b ra]; cbn [read_u8 bind]; [split; discriminate|].
+      pose proof (read_address_size_res ra) as [T1 T2].
+      destruct (read_address_size ra) as [[asz rb]| | |]; cbn [bind]; try (split; congruence).
+      pose proof (read_word_res f64 bigend rb) as [W1 W2].
+      destruct (read_word f64 bigend rb) as [[aoff rc]| | |]; cbn [bind]; split; congruence. }
+  match goal with |- (bind ?X _) <> _ /\ _ => pose proof (Hmid X eq_refl) as [M1 M2]; destruct X as [[[[ut asz] aoff] r2]| | |] end;
+    cbn [bind]; try (split; congruence).
+  pose proof (parse_unit_type_res bigend f64 ut r2) as [T1 T2].
+  destruct (parse_unit_type bigend f64 ut r2) as [[utype r3]| | |]; cbn [bind]; split; congruence.
+Qed.
+
+(* the unit iterator: every unit consumes input, the offsets stay below 2^64 *)
+Lemma parse_unit_header_length bigend types uoff bs h after :
+  parse_unit_header bigend types uoff bs = Ok (h, after) -> (length after < length bs)%nat.
+Proof.
+  unfold parse_unit_header, read_initial_length.
+  destruct (read_un 4 bigend bs) as [[v r]| | |] eqn:E1; cbn [bind]; try discriminate.
+  apply read_un_length in E1.
+  assert (Hil : forall X : res (N * bool * list byte),
+            X = (if v <? 4294967280 then Ok (v, false, r)
+                 else if v =? 4294967295 then let* (v8, r8) := read_un 8 bigend r in Ok (v8, true, r8)
+                      else Err EUnknownReservedLength) ->
+            forall len f64 r0, X = Ok (len, f64, r0) -> (length r0 <= length r)%nat).
+  { intros X -> len f64 r0. destruct (v <? 4294967280); [intros H; inversion H; subst; lia|].
+    destruct (v =? 4294967295); [|discriminate].
+    destruct (read_un 8 bigend r) as [[v8 r8]| | |] eqn:E8; cbn [bind]; try discriminate.
+    intros H. inversion H; subst. apply read_un_length in E8. lia. }
+  match goal with |- (bind ?X _) = _ -> _ => pose proof (Hil X eq_refl) as Hx; destruct X as [[[len f64] r0]| | |] end;
+    cbn [bind]; try discriminate.
+  specialize (Hx len f64 r0 eq_refl).
+  destruct (split_n len r0) as [[rest aft]| | |] eqn:Es; cbn [bind]; try discriminate.
+  apply split_n_spec in Es. destruct Es as [Es _].
+  intros H.
+  assert (aft = after).
+  { repeat match type of H with
+           | bind ?X _ = Ok _ => destruct X as [[? ?]| | |]; cbn [bind] in H; try discriminate
+           | (let (_, _) := ?p in _) = _ => destruct p
+           end.
+    inversion H. reflexivity. }
+  subst aft. rewrite Es, app_length in Hx. lia.
+Qed.
+
+Lemma units_loop_total : forall fuel dbg bigend types offset bs,
+  (length bs < fuel)%nat -> offset + nlen bs < two64 ->
+  units_loop fuel dbg bigend types offset bs <> Panic /\ units_loop fuel dbg bigend types offset bs <> OutOfFuel.
+Proof.
+  induction fuel as [|fuel IH]; intros dbg bigend types offset bs Hf Hlen; [lia|]. cbn [units_loop].
+  destruct (is_nil bs); [split; discriminate|].
+  pose proof (parse_unit_header_res bigend types offset bs) as [P1 P2].
+  destruct (parse_unit_header bigend types offset bs) as [[h after]| | |] eqn:E; try (split; congruence).
+  apply parse_unit_header_length in E.
+  unfold chk_sub. replace (nlen after <=? nlen bs) with true by (unfold nlen; lia). cbn [bind].
+  unfold chk_add. change (2 ^ 64) with two64. unfold two64 in *.
+  replace (offset + (nlen bs - nlen after) <? 18446744073709551616) with true by (unfold nlen in *; lia). cbn [bind].
+  destruct (IH dbg bigend types (offset + (nlen bs - nlen after)) after ltac:(lia) ltac:(unfold nlen in *; lia)) as [I1 I2].
+  destruct (units_loop fuel dbg bigend types (offset + (nlen bs - nlen after)) after) as [[l e]| | |]; cbn [bind];
+    split; congruence.
+Qed.
+
+Lemma units_total dbg bigend types section : nlen section < two64 ->
+  units dbg bigend types section <> Panic /\ units dbg bigend types section <> OutOfFuel.
+Proof. intros H. unfold units. apply units_loop_total; [lia|lia]. Qed.
